@@ -223,7 +223,7 @@ def cv15(prog, rr):
 
 
 # --------------------------------------------------------------------------------------- BD6
-@rule("BD6", ["C14"], "bound domains are ascending at construction; min propagators read the first interval's low end, max propagators the last interval's high end",
+@rule("BD6", ["C14", "C04"], "bound domains are ascending at construction; min propagators read the first interval's low end, max propagators the last interval's high end",
       engine="XS", floor=4)
 def bd6(prog, rr):
     em = prog.method("VariableBoundEnumModel", "__init__")
